@@ -53,6 +53,17 @@ def fam_gattrs(q):
         lambda s, g: sum(1 for a, v in g["glat"]["glyphs"][3]["attrs"] if 1 <= v <= q and a > 3), q
 
 
+def fam_gattr_count(q):
+    """q user glyph attributes + the 4 the compiler always adds: the count is stored in 16 bits (Gloc numAttribs), the
+    declared maximum is 65535 attributes in all. Written in statements of 1000 (one huge list is the C11 known finding).
+    libgraphite2 has a much lower limit of its own, so engine acceptance is not asked for here."""
+    stm = []
+    for st in range(0, q, 1000):
+        stm.append("cA {%s};" % "; ".join("ga%d = %d" % (i, i % 1000 + 1) for i in range(st, min(q, st + 1000))))
+    return HDR + "table(glyph) cA = glyphid(3..6); cB = glyphid(7..10);\n%s\nendtable;\ntable(sub) cA > cB; endtable;\n" % "\n".join(stm), ["NOENGINE"], \
+        lambda s, g: (g["numAttrs"] >= q, sum(1 for a, v in g["glat"]["glyphs"][3]["attrs"] if 1 <= v <= 1000 and a > 3)), (True, q)
+
+
 def fam_fontname(q):
     return HDR + GT + "table(sub) cA > cB; endtable;\n", ["NAME:" + "N" * q], None, q
 
@@ -114,6 +125,7 @@ FAMILIES = [
     ("features", fam_features, [62, 63, 64, 65, 200], 120),
     ("user_attr_index", fam_userattr, [15, 16, 17, 64], 120),
     ("glyph_attrs", fam_gattrs, [250, 252, 253, 256, 300], 120),
+    ("glyph_attr_count_16bit", fam_gattr_count, [65530, 65531, 65532, 65533, 70000], 120),
     ("font_name_length", fam_fontname, [31, 32, 33, 100], 120),
     ("constraint_code_length", fam_constraint, [30, 36, 37, 60, 400], 120),
     ("action_block_size", fam_actions, [1500, 2100, 2200, 3000], 200),
@@ -141,7 +153,7 @@ def run(tier, seed, replay=None):
             fontb, _g, _c = ttf.simple_font(nglyphs)
         else:
             fontb = font
-        for q in qs if (tier == "thorough" or fname in ("class_map_bytes", "glat_bytes", "glat_bytes_compressed", "glyph_attr_value")) else qs[:4]:
+        for q in qs if (tier == "thorough" or fname in ("class_map_bytes", "glat_bytes", "glat_bytes_compressed", "glyph_attr_value")) else (qs[1:4] if fname == "glyph_attr_count_16bit" else qs[:4]):
             gdl, opts, reader, true_value = fam(q)
             d = os.path.join(work, "%s_%d" % (fname, q))
             os.makedirs(d)
@@ -153,7 +165,7 @@ def run(tier, seed, replay=None):
             for o in opts:
                 if o.startswith("NAME:"):
                     extra = [o[5:]]
-                else:
+                elif o != "NOENGINE":
                     copts.append(o)
             rc, log, wall = common.run_grc(build, d, ["-q"] + copts + ["p.gdl", "in.ttf", "out.ttf"] + extra, timeout=600)
             err = open(os.path.join(d, "gdlerr.txt"), errors="replace").read() if os.path.exists(os.path.join(d, "gdlerr.txt")) else ""
@@ -184,7 +196,7 @@ def run(tier, seed, replay=None):
                     s = json.loads(outs[i + 1])
                     g = json.loads(outs[i + 2])
                     f = gr2.Face(os.path.join(d, "out.ttf"))
-                    okf = f.ok() and f.shape([0x62, 0x62, 0x63]) is not None
+                    okf = ("NOENGINE" in opts) or (f.ok() and f.shape([0x62, 0x62, 0x63]) is not None)
                     f.close()
                     if not okf:
                         problems.append("accepted, but libgraphite2 rejects the font")
@@ -213,10 +225,10 @@ def run(tier, seed, replay=None):
     rep.coverage.update({
         "programs": stats["cases"], "traces_validated_against_impl": stats["cases"], "disagreements_checked": len(rep.violations),
         "evaluations": stats["cases"], "distinct_nontrivial": len(distinct), "outcomes": table,
-        "rule": "15 size-parameterised families x 4-5 sizes around each limit; distinct = distinct (family, size, outcome)",
+        "rule": "16 size-parameterised families x 4-5 sizes around each limit; distinct = distinct (family, size, outcome)",
         "samples": samples, "exhaustive": False,
     })
     rep.assumptions += ["field widths are my reading of GTF; limits are re-extracted from constants.h",
-                        "families needing > 65535 glyphs / classes / attributes are not generated (run time)"]
+                        "families needing > 65535 glyphs / classes are not generated (run time)"]
     shutil.rmtree(work, ignore_errors=True)
     return rep.finish()
